@@ -33,6 +33,7 @@ def main():
     mism, counts = [], dict(behaviours=0, steps=0, cursor_steps=0, outcomes={}, sweeps=0, ghosts_made=0, evict_behaviours=0, skipped_embed=0)
     evict = bool(job.get('evict'))
     persist = bool(job.get('persist'))      # under the data manager without sweeps: committed at open and at the end
+    midcommit = bool(job.get('midcommit'))  # ... and before every cursor step (the leaves are up to date when the cursor steps)
     if evict or persist:
         from harness import minijar
 
@@ -145,6 +146,8 @@ def main():
                     counts['cursor_steps'] += 1
                     if committed:
                         sweep(jar)
+                    elif midcommit and jar is not None:
+                        jar.commit()
                     try:
                         if op == 'next':
                             x = next(cursor)
@@ -206,7 +209,7 @@ def main():
                     if (again != got) if ((impl == 'c' and exact) or (impl == 'py' and not evict)) else (again[0] not in ('entry', 'stop', 'RuntimeError', 'IndexError')):
                         mism.append(dict(where, kind='sticky-outcome', model=got, real=again))
                         break
-            if committed:
+            if committed or (midcommit and jar is not None):
                 pinned = [int.from_bytes(oid, 'big') for oid, o in jar.cache.items() if getattr(o, '_p_state', 0) == 2]
                 if pinned:
                     mism.append(dict(where, kind='pinned-after-step', real=pinned))
@@ -219,7 +222,7 @@ def main():
             t._check()
         except Exception as e:
             mism.append(dict(fam=fam, impl=impl, is_set=is_set, sizes=[job['leaf'], job['internal']], history=hist, kind='checker', real=str(e)[:80]))
-        if persist and prev_to is not None and not open_embeds and not embeds(prev_to) and len(prev_to.get('kids', [])) >= 2:
+        if persist and not midcommit and prev_to is not None and not open_embeds and not embeds(prev_to) and len(prev_to.get('kids', [])) >= 2:
             # "holds exactly the contents implied by the mutations" - also for the database: whatever the cursor did while the
             # tree was being changed, the changes are still announced; a fresh reader sees the writer's contents.  (Trees
             # that were or end as a one-leaf root, or have a non-root single-leaf node at a commit, are left out: finding D18)
